@@ -11,17 +11,14 @@ Local Open Scope Z_scope.
 
 (* ---------------------------------------------------------------- getHost *)
 
-Definition gh_body (hp : list Z) : Z -> unit -> option (unit + list Z) :=
-  fun i _ =>
+(* the loop of getHost: end = index of the last ':' seen so far *)
+Definition gh_body (hp : list Z) : Z -> Z -> option Z :=
+  fun i end_ =>
   match str_index hp i with None => None | Some x'1 =>
-  if (x'1 =? 58) then match str_slice hp 0 i with None => None | Some x'2 =>
-  Some (inr x'2)
-  end
-  else Some (inl tt)
+  if (x'1 =? 58) then let end_ := i in
+  Some end_
+  else Some end_
   end.
-
-Fixpoint has_colon (l : list Z) : bool :=
-  match l with [] => false | c :: r => (c =? 58) || has_colon r end.
 
 Lemma str_index_app pre c r : str_index (pre ++ c :: r) (zlen pre) = Some c.
 Proof.
@@ -41,17 +38,19 @@ Proof.
   rewrite firstn_app, Nat.sub_diag, firstn_all. cbn [firstn]. now rewrite app_nil_r.
 Qed.
 
-Lemma gh_loop suf : forall pre,
-  go_for_ret_nat (length suf) (zlen pre) (gh_body (pre ++ suf)) tt =
-  Some (if has_colon suf then inr (pre ++ host_of suf) else inl tt).
+(* after the loop over suf (entered with end = e): the index of the last ':' of suf if it has one *)
+Lemma gh_loop suf : forall pre e,
+  go_for_nat (length suf) (zlen pre) (gh_body (pre ++ suf)) e =
+  Some (if has_colon suf then zlen pre + zlen (host_of suf) else e).
 Proof.
-  induction suf as [|c r IH]; intros pre; cbn [length go_for_ret_nat has_colon host_of]; [reflexivity|].
+  induction suf as [|c r IH]; intros pre e; cbn [length go_for_nat has_colon host_of]; [reflexivity|].
   unfold gh_body at 1. rewrite str_index_app.
-  destruct (c =? 58) eqn:E; cbn [orb].
-  - rewrite str_slice_prefix. now rewrite app_nil_r.
-  - replace (pre ++ c :: r) with ((pre ++ [c]) ++ r) by now rewrite <- app_assoc.
-    replace (zlen pre + 1) with (zlen (pre ++ [c])) by (unfold zlen; rewrite app_length; cbn [length]; lia).
-    rewrite IH. destruct (has_colon r); [|reflexivity]. now rewrite <- app_assoc.
+  replace (pre ++ c :: r) with ((pre ++ [c]) ++ r) by now rewrite <- app_assoc.
+  replace (zlen pre + 1) with (zlen (pre ++ [c])) by (unfold zlen; rewrite app_length; cbn [length]; lia).
+  assert (L : zlen (pre ++ [c]) = zlen pre + 1) by (unfold zlen; rewrite app_length; cbn [length]; lia).
+  destruct (c =? 58) eqn:E; cbn [orb]; rewrite IH, L.
+  - destruct (has_colon r); f_equal; unfold zlen; cbn [length]; lia.
+  - destruct (has_colon r); f_equal; unfold zlen; cbn [length]; lia.
 Qed.
 
 Lemma host_of_nocolon l : has_colon l = false -> host_of l = l.
@@ -60,14 +59,26 @@ Proof.
   intros H. apply orb_false_iff in H as [H1 H2]. rewrite H1. now rewrite IH.
 Qed.
 
+(* the host is a prefix of the host:port *)
+Lemma host_of_prefix l : exists suf, l = host_of l ++ suf.
+Proof.
+  induction l as [|c r (suf & IH)]; cbn [host_of]; [exists []; reflexivity|].
+  destruct (c =? 58); [destruct (has_colon r)|].
+  - exists suf. cbn [app]. now rewrite <- IH.
+  - exists (c :: r). reflexivity.
+  - exists suf. cbn [app]. now rewrite <- IH.
+Qed.
+
 (* the generated getHost never panics and is the specification's host function: the bytes
-   before the first ':', the whole string when there is none *)
+   before the LAST ':', the whole string when there is none *)
 Lemma getHost_host_of hp : getHost hp = Some (host_of hp).
 Proof.
-  unfold getHost, go_for_ret. change (fun (i : Z) (_ : unit) => _) with (gh_body hp).
-  unfold zlen. rewrite Nat2Z.id.
-  pose proof (gh_loop hp []) as H. cbn [app] in H. change (zlen []) with 0 in H. rewrite H.
-  destruct (has_colon hp) eqn:E; [reflexivity|]. now rewrite host_of_nocolon.
+  unfold getHost, go_for. change (fun (i : Z) (end_ : Z) => _) with (gh_body hp).
+  replace (Z.to_nat (zlen hp)) with (length hp) by (unfold zlen; now rewrite Nat2Z.id).
+  pose proof (gh_loop hp [] (zlen hp)) as H. cbn [app] in H. change (zlen []) with 0 in H. rewrite H.
+  assert (E : (if has_colon hp then 0 + zlen (host_of hp) else zlen hp) = zlen (host_of hp)).
+  { destruct (has_colon hp) eqn:C; [lia|]. now rewrite host_of_nocolon. }
+  rewrite E. destruct (host_of_prefix hp) as (suf & P). rewrite P at 1. rewrite str_slice_prefix. reflexivity.
 Qed.
 
 Lemma getHost_get_host hp : getHost hp = Some (get_host hp).
